@@ -1,6 +1,7 @@
 import VaxisModel.Driver.Common
 import VaxisModel.Model.TextField
 import VaxisModel.Model.TextInput
+import VaxisModel.Model.TextInputCells
 import VaxisModel.Model.TextFieldCl
 import VaxisModel.Model.TextInputCl
 import VaxisModel.Spec.Editor
@@ -21,6 +22,7 @@ structure St where
   ti : TextInput.TI Nat := TextInput.new
   ed : Ed Nat := ⟨[], 0⟩
   dead : Bool := false      -- model panicked / hung earlier in this case
+  masked : Bool := false    -- textinput: SetInvisibleChar was called
   -- kinds tfc / tic: texts of atoms (code points) whose graphemes can merge
   classes : Array Char := #[]          -- grapheme-break class of each atom (header `k=`)
   cw : List (List Nat × Nat) := []     -- display width of the clusters seen so far (op field `W=`)
@@ -124,6 +126,23 @@ def hexString (h : String) : String :=
   | some bs => String.ofList (bs.map fun b => Char.ofNat b)   -- key names are ASCII
   | none => ""
 
+def glyphStr {α : Type} (f : α → String) : TextInput.Glyph α → String
+  | .g x => f x
+  | .trunc => "T"
+  | .mask => "M"
+
+/-- The window row as the harness reports it: one entry per column (`2` = the blank of `Fill`). -/
+def rowStr {α : Type} (f : α → String) (w : Nat) (cells : List (Int × TextInput.Glyph α)) : String :=
+  let r := TextInput.renderRow "2" w (cells.map fun c => (c.1, glyphStr f c.2))
+  if r.isEmpty then "-" else ",".intercalate r
+
+/-- Oracle for the drawn row while the line fits: the prompt from column 0, then the ideal editor's
+text (or the mask), each grapheme at the column = display width before it; nothing else. -/
+def expectRow {α : Type} (f : α → String) (width : α → Int) (masked : Bool) (w : Nat) (prompt text : List α) : String :=
+  let pw := (prompt.map width).foldl (· + ·) 0
+  rowStr f w (TextInput.placed width .g prompt 0 ++
+    TextInput.placed width (if masked then fun _ => .mask else .g) text pw)
+
 def stepTI (s : St) (op : List String) (impl : String) : St × String :=
   let isW := s.isWord
   if s.dead then (s, s!"dead\t{impl}\t-") else
@@ -142,6 +161,7 @@ def stepTI (s : St) (op : List String) (impl : String) : St × String :=
       | none => (s, "bad-op\tbad-op\tbad-op")
     | none => (s, "bad-op\tbad-op\tbad-op")
   | ["rel"] => upd .release .noop
+  | ["mask"] => ({ s with masked := true }, s!"{tiCanon s.ti}\t{impl}\t{verdictEq "textinput" impl (tiExpect s.ed)}")
   | ["pkey", t] =>
     match ids? t with
     | some t => upd (.pasteKey t) .noop
@@ -167,12 +187,16 @@ def stepTI (s : St) (op : List String) (impl : String) : St × String :=
       let v (got : String) : String :=
         if got = "hang" then "FAIL draw_terminates: textinput.Draw does not return"
         else if got = "panic" then "FAIL draw panics"
-        else if fits then verdictEq "cursor_column" got s!"col={pw + widthOf s (s.ed.text.take s.ed.cursor)}"
+        else if fits then verdictEq "cursor_column/cells" got
+          s!"col={pw + widthOf s (s.ed.text.take s.ed.cursor)} row={expectRow toString wd s.masked w prompt s.ed.text}"
         else "ok"
+      let row := match TextInput.drawCells wd s.masked s.ti prompt w with
+        | some cs => rowStr toString w cs
+        | none => "-"
       match TextInput.draw wd s.ti prompt w with
       | .hang => ({ s with dead := true }, s!"hang\t{impl}\t{v impl}")
-      | .early m' => ({ s with ti := m' }, s!"nocursor\t{impl}\t{v impl}")
-      | .shown m' c => ({ s with ti := m' }, s!"col={c}\t{impl}\t{v impl}")
+      | .early m' => ({ s with ti := m' }, s!"nocursor row={row}\t{impl}\t{v impl}")
+      | .shown m' c => ({ s with ti := m' }, s!"col={c} row={row}\t{impl}\t{v impl}")
     | _, _ => (s, "bad-op\tbad-op\tbad-op")
   | _ => (s, "bad-op\tbad-op\tbad-op")
 
@@ -339,6 +363,7 @@ def stepTIC (s : St) (op : List String) (impl : String) : St × String :=
     match ids? t with
     | some t => upd (.pasteKey t) .noop
     | none => (s, "bad-op\tbad-op\tbad-op")
+  | ["mask"] => ({ s with masked := true }, s!"{ticCanon s.tic}\t{impl}\t{verdictEq "textinput" impl (ticExpect s.edc)}")
   | ["pend"] => upd .pasteEnd (.insert (cl s.tic.paste))
   | ["set", t] =>
     match ids? t with
@@ -352,17 +377,22 @@ def stepTIC (s : St) (op : List String) (impl : String) : St × String :=
     | some w =>
       if impl = "skipped-after-hang" then (s, s!"-\t-\t-") else
       let wd : List Nat → Int := fun c => (s.cwidth c : Int)
+      let shc : List Nat → String := fun c => "+".intercalate (c.map toString)
       let tw := widthOfC s s.edc.text
       let fits := tw + 4 < w
       let v (got : String) : String :=
         if got = "hang" then "FAIL draw_terminates: textinput.Draw does not return"
         else if got = "panic" then "FAIL draw panics"
-        else if fits then verdictEq "cursor_column" got s!"col={widthOfC s (s.edc.text.take s.edc.cursor)}"
+        else if fits then verdictEq "cursor_column/cells" got
+          s!"col={widthOfC s (s.edc.text.take s.edc.cursor)} row={expectRow shc wd s.masked w [] s.edc.text}"
         else "ok"
+      let row := match TextInput.drawCells wd s.masked (TextInputCl.toG s.tic) [] w with
+        | some cs => rowStr shc w cs
+        | none => "-"
       match TextInput.draw wd (TextInputCl.toG s.tic) [] w with
       | .hang => ({ s with dead := true }, s!"hang\t{impl}\t{v impl}")
-      | .early g => ({ s with tic := TextInputCl.ofG g s.tic.paste }, s!"nocursor\t{impl}\t{v impl}")
-      | .shown g c => ({ s with tic := TextInputCl.ofG g s.tic.paste }, s!"col={c}\t{impl}\t{v impl}")
+      | .early g => ({ s with tic := TextInputCl.ofG g s.tic.paste }, s!"nocursor row={row}\t{impl}\t{v impl}")
+      | .shown g c => ({ s with tic := TextInputCl.ofG g s.tic.paste }, s!"col={c} row={row}\t{impl}\t{v impl}")
     | none => (s, "bad-op\tbad-op\tbad-op")
   | _ => (s, "bad-op\tbad-op\tbad-op")
 
